@@ -130,6 +130,7 @@ func countNodes(ms schema.ModelSet, keep func(schema.Node) bool) (kept, removed,
 		if len(n.Children()) > 0 {
 			keptWithKids++
 		}
+		// (counting only: a node below a rejected top-level choice is counted as kept although it goes with the choice)
 		for _, c := range n.Children() {
 			walk(c)
 		}
